@@ -109,14 +109,14 @@ pub fn check(acc: &mut Acc, case: u64, sc: &Scenario, out: &Outcome, a: &Analysi
     let mut last: HashMap<u64, (u64, u64)> = HashMap::new();
     for e in a.log() {
         if let EvKind::ServerGot { line, .. } = &e.kind {
-            if line.starts_with(b"vreq ") || line.starts_with(b"vfail ") {
+            if line.starts_with(b"vreq ") || line.starts_with(b"v_fail ") {
                 let toks: Vec<u64> = String::from_utf8_lossy(line).split(' ').skip(1).filter_map(|t| t.parse().ok()).collect();
                 if toks.len() >= 2 {
                     let (k, n) = (toks[0], toks[1]);
                     let idx = if line.starts_with(b"vreq ") && toks.len() >= 4 { toks[3] } else { 0 };
                     if let Some((pn, pi)) = last.get(&k) {
                         // same request (list): inner index grows; otherwise the sequence number grows
-                        let fine = n > *pn || (n == *pn && (idx > *pi || line.starts_with(b"vfail ")));
+                        let fine = n > *pn || (n == *pn && (idx > *pi || line.starts_with(b"v_fail ")));
                         if !fine {
                             acc.violation(case, None, format!("requests of caller {} reached the server out of issue order: #{} after #{}", k, n, pn), sess::detail(sc, out));
                             ok = false;
